@@ -762,7 +762,7 @@ _RF = ["syscommand_runner", "cleanup_on_abort", "SystemCommandSetup::run", "Syst
 
 
 _W_ABORT = [["runner", "abort_releases"], ["runner", "vanished_listener"]]
-_W_REPLAY = [["runner", "mixed_kinds"], ["runner", "replay_order"]]
+_W_REPLAY = [["runner", "mixed_kinds"], ["runner", "replay_order"], ["runner", "nested_self_then_ancestor"], ["runner", "nested_replay_ancestor"]]
 _W_DEPTH = [["runner", "deep_tree", "200"], ["runner", "mixed_kinds"]]
 
 
